@@ -202,7 +202,8 @@ def mixed_parameter_streams(rnd):
             m[l] = {"HL": 1, "LH": 1, "HH": 2}
         return m
 
-    def enc(d, dho, first_pn, profile=Profiles.high_quality, fsc=0):
+    def enc(d, dho, first_pn, profile=Profiles.high_quality, fsc=0, height=8):
+        vp = type(minimal["video_parameters"])(minimal["video_parameters"], frame_width=16, frame_height=height, clean_width=16, clean_height=height)
         cf = CodecFeatures(minimal, video_parameters=vp, wavelet_index=WaveletFilters.haar_no_shift, wavelet_index_ho=WaveletFilters.le_gall_5_3,
                            dwt_depth=d, dwt_depth_ho=dho, quantization_matrix=qm(d, dho), picture_bytes=96, profile=profile, fragment_slice_count=fsc)
         pics = _pictures(cf, 1, rnd)
@@ -214,6 +215,8 @@ def mixed_parameter_streams(rnd):
         ("hq_mixed_dho_up", [(1, 0), (1, 1), (1, 0)], {}),
         ("hq_mixed_depth_down", [(2, 0), (1, 0), (0, 1)], {}),
         ("ld_mixed_fragments", [(1, 1), (1, 0)], {"profile": Profiles.low_delay, "fsc": 1}),
+        # the same TOTAL depth split differently, on a height (6) that the two splits pad differently (8 and 6)
+        ("hq_mixed_same_total_depth", [(2, 0), (0, 0), (1, 1), (0, 2), (2, 0)], {"height": 6}),
     ):
         parts = [_units(enc(d, dho, i, **kw)) for i, (d, dho) in enumerate(plan)]
         units = parts[0][:-1]
